@@ -10,6 +10,16 @@ BASELINE = ("cd /repo && /venv/bin/python -m pytest -ra -q -p no:cacheprovider -
 
 # id -> (category, technique, level text, level note, design ref)
 CHECKS = {
+    "C15": ("translation_validation",
+            "Hypothesis-generated odML 1.0 documents through three independent emitters; each converted "
+            "document validated against an independent model of the documented 1.0->1.1 mapping",
+            "Per generated 1.0 document (the 'program') the converter's output is validated: the strict reader "
+            "loads it, and tree, Properties, values in order, lifted value attributes, ids, renamed duplicates "
+            "and the conversion log agree with an independent model; the source bytes are unchanged and "
+            "write_to_file gives the same document. A disagreement is investigated on both sides.",
+            "Values well-typed for the first declared type; no network URLs; StringIO sources without an "
+            "encoding declaration.",
+            "DESIGN.md section 5, C15"),
     "C07": ("fault_enumeration",
             "complete enumeration of the (invalidation route x serialisation fault x format x target state x "
             "entry point) table on Hypothesis-generated documents; file-system oracle on bytes and directory "
